@@ -106,3 +106,18 @@ func WithHeadroom(f func()) {
 	touchStack(3)
 	f()
 }
+
+//go:noinline
+func recurseSmall(n int, f func()) int {
+	if n <= 0 {
+		f()
+		return 0
+	}
+	return recurseSmall(n-1, f) + 1
+}
+
+// AtDepthFine is AtDepth followed by `fine` frames of a function with a small (~48 byte) frame: it moves the
+// remaining stack headroom in small steps.
+func AtDepthFine(d, fine int, f func()) {
+	AtDepth(d, func() { recurseSmall(fine, f) })
+}
